@@ -31,8 +31,13 @@ def check(P, rep):
     rep.check(g.success_needs((), edges(delay) + edges(by_true)), 'C09.R1', 'rotate_signers:delay-enforced',
               'without bypass every success exit lies behind now - last >= minimum delay', entry_id(g))
     # (R3) a bypass rotation ignores the delay: the delay test (and so its refusal) is reached only with the bypass flag false
+    avoid = g.reach(None, (), edges(by_false)) if by_false else None
     for gd in delay:
-        ok, _, w = mg(g, [(gd.ctx.id, gd.bb)], (), edges(by_false)) if by_false else (False, None, None)
+        # the states in which THIS comparison is the one tested (the same switch may also test a constant `false` handed down on the
+        # bypass path, e.g. `enforce.then(|| elapsed).is_some_and(|e| e < min)`): none of them is reachable without a bypass == false edge
+        src = [sid for sid in g.node_states.get((gd.ctx.id, gd.bb), []) if any(lab == gd.label for _, lab in g.succ[sid])]
+        ok = avoid is not None and not any(sid in avoid for sid in src)
+        w = None
         rep.check(ok, 'C09.R3', 'rotate_signers:bypass-ignores-delay', 'the minimum-delay test is applied only when the bypass flag is false '
                   '(an authorised bypass rotation is never refused for the delay)', site(g, gd.ctx, gd.bb), None, w)
     clock = [e for e in state_effects(g) if e.kind == 'sw' and key_variant(e.key)[0] == 'LastRotationTimestamp']
